@@ -167,7 +167,7 @@ def run(ctx):
     take(ctx, rg, "c10")
 
     # the same proxy with the inputs that must be rejected, under every log level fabio can be configured with
-    must = [c for c in cases if c["class"] == "reject" and c["must"] and len(c["bytes"]) < 6000]
+    must = [c for c in cases if c.get("mustnotroute") and len(c["bytes"]) < 6000]
     fr = os.path.join(ctx.tmp, "c10.gluereject")
     vf.write_ndjson(fr, must)
     rr = glue_reject(ctx, fr, "C10 glue (rejects)")
